@@ -197,6 +197,52 @@ K["assign_2d_range_range_ub"] = dict(
     value=["forall|a: int, b: int| 0 <= a < old(sink).r && 0 <= b < old(sink).c ==> #[trigger] final(sink).at(a, b) == (if hit(ix1.d@, ix1.d@.len() as int, a) && ix2.d@[b] { source } else { old(sink).at(a, b) })"] + SHAPE,
     loops=["    invariant " + SK + ",", "          invariant " + SK + ","])
 
+# ---- kernels that iterate with nalgebra iterators / bind a column view (rules R10, R11)
+# x[I, j] = v
+K["assign_2d_range_scalar"] = dict(
+    structs="Assign2DRSS", params=["sink", "ix1", "ix2", "source"], scalars=["ix2", "source"], sig="sink: &mut Mat, ix1: &IVec, ix2: usize, source: u64",
+    requires=["old(sink).wf()", "ix1.d@.len() >= 1"] + NE, valid="(ix_ok(ix1.d@, old(sink).r as int) && 1 <= ix2 <= old(sink).c)",
+    value=["forall|a: int, b: int| 0 <= a < old(sink).r && 0 <= b < old(sink).c ==> #[trigger] final(sink).at(a, b) == (if b == ix2 - 1 && hit(ix1.d@, ix1.d@.len() as int, a) { source } else { old(sink).at(a, b) })"] + SHAPE,
+    loops=["    invariant " + SK + ", 1 <= ix2 <= sink.c, col_ix_ == ix2 - 1,\n"
+           "      forall|k: int| 0 <= k < k_rix ==> 1 <= #[trigger] ix1.d@[k] <= sink.r,\n"
+           "      forall|a: int, b: int| 0 <= a < sink.r && 0 <= b < sink.c ==> #[trigger] sink.at(a, b) == (if b == ix2 - 1 && hit(ix1.d@, k_rix as int, a) { source } else { old(sink).at(a, b) }),"])
+
+# x[mask, j] = v
+K["assign_2d_range_scalar_b"] = dict(
+    structs="Assign2DRSB", params=["sink", "ix1", "ix2", "source"], scalars=["ix2", "source"], sig="sink: &mut Mat, ix1: &BVec, ix2: usize, source: u64",
+    requires=["old(sink).wf()", "ix1.d@.len() >= 1"] + NE, valid="(ix1.d@.len() == old(sink).r && 1 <= ix2 <= old(sink).c)", masklen="ix1.d@.len() == old(sink).r",
+    addressed="(1 <= ix2 <= old(sink).c && (forall|a: int| 0 <= a < ix1.d@.len() && #[trigger] ix1.d@[a] ==> a < old(sink).r))",
+    value=["forall|a: int, b: int| 0 <= a < old(sink).r && 0 <= b < old(sink).c ==> #[trigger] final(sink).at(a, b) == (if b == ix2 - 1 && ix1.d@[a] { source } else { old(sink).at(a, b) })"] + SHAPE,
+    loops=["    invariant " + SK + ", 1 <= ix2 <= sink.c, col_ix_ == ix2 - 1,\n"
+           "      forall|a: int| 0 <= a < rix && #[trigger] ix1.d@[a] ==> a < sink.r,\n"
+           "      forall|a: int, b: int| 0 <= a < sink.r && 0 <= b < sink.c ==> #[trigger] sink.at(a, b) == (if b == ix2 - 1 && a < rix && a < ix1.d@.len() && ix1.d@[a] { source } else { old(sink).at(a, b) }),"])
+
+# x[:, J] = v
+K["assign_2d_all_range"] = dict(
+    structs="Set2DARS", params=["source", "ix", "sink"], scalars=["source"], sig="source: u64, ix: &IVec, sink: &mut Mat",
+    requires=["old(sink).wf()", "ix.d@.len() >= 1"] + NE, valid="ix_ok(ix.d@, old(sink).c as int)",
+    value=["forall|a: int, b: int| 0 <= a < old(sink).r && 0 <= b < old(sink).c ==> #[trigger] final(sink).at(a, b) == (if hit(ix.d@, ix.d@.len() as int, b) { source } else { old(sink).at(a, b) })"] + SHAPE,
+    loops=["    invariant " + SK + ", sink.r >= 1,\n"
+           "      forall|k: int| 0 <= k < k_cix ==> 1 <= #[trigger] ix.d@[k] <= sink.c,\n"
+           "      forall|a: int, b: int| 0 <= a < sink.r && 0 <= b < sink.c ==> #[trigger] sink.at(a, b) == (if hit(ix.d@, k_cix as int, b) { source } else { old(sink).at(a, b) }),",
+           "      invariant ITER_END(sink.r), " + SK + ", sink.r >= 1, k_cix < ix.d@.len(), cix == ix.d@[k_cix as int], rix > 0 ==> 1 <= cix <= sink.c,\n"
+           "        forall|k: int| 0 <= k < k_cix ==> 1 <= #[trigger] ix.d@[k] <= sink.c,\n"
+           "        forall|a: int, b: int| 0 <= a < sink.r && 0 <= b < sink.c ==> #[trigger] sink.at(a, b) == (if hit(ix.d@, k_cix as int, b) || (b == cix - 1 && a < rix) { source } else { old(sink).at(a, b) }),"])
+
+# x[I, :] = v
+K["assign_2d_range_all"] = dict(
+    structs="Set2DRAS", params=["source", "ix", "sink"], scalars=["source"], sig="source: u64, ix: &IVec, sink: &mut Mat",
+    requires=["old(sink).wf()", "ix.d@.len() >= 1"] + NE, valid="ix_ok(ix.d@, old(sink).r as int)",
+    value=["forall|a: int, b: int| 0 <= a < old(sink).r && 0 <= b < old(sink).c ==> #[trigger] final(sink).at(a, b) == (if hit(ix.d@, ix.d@.len() as int, a) { source } else { old(sink).at(a, b) })"] + SHAPE,
+    loops=["    invariant ITER_END(sink.c), " + SK + ", sink.c >= 1, ix.d@.len() >= 1,\n"
+           "      cix > 0 ==> ix_ok(ix.d@, sink.r as int),\n"
+           "      forall|a: int, b: int| 0 <= a < sink.r && 0 <= b < sink.c ==> #[trigger] sink.at(a, b) == (if b < cix && hit(ix.d@, ix.d@.len() as int, a) { source } else { old(sink).at(a, b) }),",
+           "      invariant " + SK + ", sink.c >= 1, cix < sink.c, ix.d@.len() >= 1,\n"
+           "        cix > 0 ==> ix_ok(ix.d@, sink.r as int),\n"
+           "        forall|k: int| 0 <= k < k_rix ==> 1 <= #[trigger] ix.d@[k] <= sink.r,\n"
+           "        forall|a: int, b: int| 0 <= a < sink.r && 0 <= b < sink.c ==> #[trigger] sink.at(a, b) == (if (b < cix && hit(ix.d@, ix.d@.len() as int, a)) || (b == cix && hit(ix.d@, k_rix as int, a)) { source } else { old(sink).at(a, b) }),"])
+
+
 MODES = {
     "value": "%s (struct %s): with every index valid the kernel returns normally, every addressed element holds the assigned value, every other element and the shape are unchanged (any matrix size)",
     "reject": "%s (struct %s): if the kernel returns normally then every addressed position exists",
@@ -282,6 +328,20 @@ def op_table(op):
                "        forall|a: int| 0 <= a < rix && #[trigger] ix.d@[a] ==> a < sink.r,\n"
                "        forall|a: int, b: int| 0 <= a < sink.r && 0 <= b < sink.c ==> #[trigger] sink.at(a, b) == (if (b < cix || (b == cix && a < rix)) && a < ix.d@.len() && ix.d@[a] { %s(old(sink).at(a, b), source) } else { old(sink).at(a, b) })," % F],
         loopvars=["cix", "rix"])
+    T["%s_assign_2d_vector_all" % op] = dict(
+        structs="%sAssign2DRAS" % op.capitalize(), params=["source", "ix", "sink"], scalars=["source"], sig="source: u64, ix: &IVec, sink: &mut Mat",
+        requires=["old(sink).wf()", "ix.d@.len() >= 1"] + NE, valid="(ix_ok(ix.d@, old(sink).r as int) && distinct(ix.d@))",
+        addressed="ix_ok(ix.d@, old(sink).r as int)", mask=False,
+        value=["forall|a: int, b: int| 0 <= a < old(sink).r && 0 <= b < old(sink).c ==> #[trigger] final(sink).at(a, b) == (if hit(ix.d@, ix.d@.len() as int, a) { %s(old(sink).at(a, b), source) } else { old(sink).at(a, b) })" % F] + SHAPE,
+        loops=["    invariant ITER_END(sink.c), " + SK + ", sink.c >= 1, ix.d@.len() >= 1,\n"
+               "      cix > 0 ==> ix_ok(ix.d@, sink.r as int),\n"
+               "      distinct(ix.d@) ==> (forall|a: int, b: int| 0 <= a < sink.r && 0 <= b < sink.c ==> #[trigger] sink.at(a, b) == (if b < cix && hit(ix.d@, ix.d@.len() as int, a) { %s(old(sink).at(a, b), source) } else { old(sink).at(a, b) }))," % F,
+               "      invariant " + SK + ", sink.c >= 1, cix < sink.c, ix.d@.len() >= 1,\n"
+               "        cix > 0 ==> ix_ok(ix.d@, sink.r as int),\n"
+               "        forall|k: int| 0 <= k < k_rix ==> 1 <= #[trigger] ix.d@[k] <= sink.r,\n"
+               "        distinct(ix.d@) ==> (forall|a: int, b: int| 0 <= a < sink.r && 0 <= b < sink.c ==> #[trigger] sink.at(a, b) == "
+               "(if (b < cix && hit(ix.d@, ix.d@.len() as int, a)) || (b == cix && hit(ix.d@, k_rix as int, a)) { %s(old(sink).at(a, b), source) } else { old(sink).at(a, b) }))," % F],
+        loopvars=["cix", "k_rix"])
     return T
 
 
